@@ -260,7 +260,7 @@ def parse_record(raw):
 def read_cdx(data):
     """-> (header_ok, [dict(url, mime, status, digest, len, off, file, rid, wellformed)]).
     The columns are taken from the legend line (' CDX a b m s k S V g u': delimiter, 'CDX', field letters)."""
-    text = data.decode('utf-8', 'replace')
+    text = data.decode('utf-8', 'surrogateescape')       # (file names are bytes: not necessarily UTF-8)
     lines = text.split('\n')
     if lines and lines[-1] == '':
         lines.pop()
